@@ -222,7 +222,11 @@ func (s *scanner) scanner(store *stor.Stor) {
 			break
 		}
 		buf := store.Data(off)
-		if string(buf[magic2at:magic2at+len(magic2)]) != magic2 {
+		// in read mode the last chunk ends at the end of the file:
+		// a state record cut short by the end of the file is not a state
+		// (and reading past the last page of the file would fault)
+		if len(buf) < stateLen ||
+			string(buf[magic2at:magic2at+len(magic2)]) != magic2 {
 			continue
 		}
 		s.lock.Lock()
